@@ -54,7 +54,7 @@ def plan(tier, seed):
               {"kind": "merkle", "upto": 400 if q else 2100, "label": "merkle"},
               {"kind": "cve", "upto": 40 if q else 140, "label": "cve"}]
     for p in range(N_PROOF_SHARDS):
-        shards.append({"kind": "proofs", "part": p, "parts": N_PROOF_SHARDS, "sampled": 96 if q else 3000,
+        shards.append({"kind": "proofs", "part": p, "parts": N_PROOF_SHARDS, "sampled": 96 if q else 2000,
                        "label": "proofs-%d" % p})
     return shards
 
@@ -405,7 +405,7 @@ def run_proofs(spec, rec):
         for lo in range(0, 1 << n, chunk):
             items.append(("exh", n, lo, min(1 << n, lo + chunk)))
     for n in SAMPLED_SIZES[tier]:
-        per = spec["sampled"] if n <= 33 else max(12, spec["sampled"] // 4)
+        per = spec["sampled"] if n <= 33 else max(12, spec["sampled"] // 4) if n <= 130 else max(12, spec["sampled"] // 25)
         step = 16 if n <= 33 else 3
         for k in range(0, per, step):
             items.append(("smp", n, k, min(per, k + step)))
